@@ -1359,4 +1359,6 @@ func TestVerifC05(t *testing.T) {
 		c05RealLoop(t, o, ca, rng.Int63())
 		o.Stat("real_loop_runs", 1)
 	}
+	// the same name configured by its other spellings (case, blanks, Unicode IDN, wildcard IDN)
+	c05Spellings(t, o, ca, rng)
 }
